@@ -17,6 +17,9 @@ checks = {
  "C17": dict(technique="runtime monitoring: executed write/append/read/exists histories; printed results and a recursive snapshot of the sandbox file system compared with a model file system",
    text="History monitor against a model file system: single-store cells over 33 path spellings x contents (payloads, every printable character, newlines) x literal/run-time origin x top level/function x literal/computed append flag, and enumerated + random histories of write/append/read/exists over three paths; after each script the complete sandbox (every path, every byte) must equal the model, so a write touching another path is seen.",
    note="Trusted: RefLang interpreter's file model, sandbox snapshot. Bash only; literal spellings of \" $ ` \\ avoided (C08 finding).", ref="§3 C17"),
+ "C15": dict(technique="runtime monitoring: differential execution of the compiled library under bash against Go's strings package on enumerated argument tuples",
+   text="Differential monitor: for each of the 19 library functions, argument tuples over all strings of length 0-3 on {a, b, blank} plus longer overlapping strings, counts -2..4, slices of up to 4 elements, whitespace mixes; each call is compiled, executed under real bash and compared with the Go function of the same name (results framed so blanks and empties show).",
+   note="Trusted: Go's strings package. ASCII arguments; the thorough tier covers ~35 000 tuples (pairs of 3-character strings thinned to one third).", ref="§3 C15"),
  "C14": dict(technique="runtime monitoring: offline checker over a recorded event log of Transpile calls across histories, processes and tree locations (hash equality per program and target)",
    text="History monitor: every ordered pair of (program, target) calls and random histories of 3-15 calls on one transpiler object, the corpus in 8/64 fresh processes and in relocated copies of the source tree (deep path, blanks, relative path); an offline checker over the event log requires one script hash per (program, target); a recording wrapper at the Converter boundary additionally requires identical call traces.",
    note="Trusted: the event log and its checker. A fresh converter per call, as the contract states; error texts compared only as 'is an error'.", ref="§3 C14"),
